@@ -1,9 +1,9 @@
 (** C13 — weighted-sample statistics and the mixture proposal obey their definitions.
     Model: Num/Quantile.v ([wsq_idx] = weighted_sample_quantile with the argsort as an oracle,
     [normalize_weights], [compute_ess], [wvar_rows]/[weighted_var] (normalise, then [wvar_core]), [gm_pdf], [rvs]).
-    Proofs: Proofs/C13_Quantile.v, C13_Stats.v, C13_Rvs.v.  This file only states the theorems. *)
+    Proofs: Proofs/C13_Quantile.v, C13_Stats.v, C13_Rvs.v, C13_Hist.v.  This file only states the theorems. *)
 From Coq Require Import List ZArith QArith Qabs Bool Arith Permutation Sorted.
-From Elfi Require Import Num.Quantile Proofs.C13_Quantile Proofs.C13_Stats Proofs.C13_Rvs.
+From Elfi Require Import Num.Quantile Proofs.C13_Quantile Proofs.C13_Stats Proofs.C13_Rvs Proofs.C13_Hist.
 Import ListNotations.
 Open Scope Q_scope.
 
@@ -273,6 +273,76 @@ Theorem C13_rvs_ok_sound :
 Proof. exact rvs_ok_sound. Qed.
 Print Assumptions C13_rvs_ok_sound.
 
+(** * histories of calls on the class (wave 3)
+    [pdf], [logpdf] and [rvs] are class-level functions: a caller evaluates them again and again,
+    re-using (and editing in place) the arrays it passed before.  The model has no state that
+    survives a call; a history is accepted iff every call is. *)
+Theorem C13_hist_ok_sound :
+  forall calls, ok (CHist calls) = true -> Forall (fun c => ok_call c = true) calls.
+Proof. exact hist_ok_sound. Qed.
+Print Assumptions C13_hist_ok_sound.
+
+(** every sampler call of an accepted history, wherever it stands in the history, returned exactly
+    [size] rows, all satisfying the constraint of that call *)
+Theorem C13_hist_rvs_sound :
+  forall calls size box batches o,
+    ok (CHist calls) = true -> In (GRvs size box batches o) calls ->
+    exists out, o = Some out /\ length out = size /\ Forall (fun x => in_box box x = true) out.
+Proof. exact hist_rvs_sound. Qed.
+Print Assumptions C13_hist_rvs_sound.
+
+(** every density call ([pdf], or [logpdf] through [exp]) of an accepted history returned, at each
+    point, the weighted sum of the component densities for the numbers passed at that call *)
+Theorem C13_hist_pdf_sound :
+  forall calls dens w tol l n d i,
+    ok (CHist calls) = true ->
+    In (GPdf dens (Some w) tol (Some l)) calls \/ In (GLogpdf dens (Some w) tol (Some l)) calls ->
+    wf_stat_w w = true -> nth_error dens n = Some d -> nth_error l n = Some i -> length w = length d ->
+    Qabs (spec_pdf d w - i) <= tol * (1 + Qabs (spec_pdf d w)).
+Proof. exact hist_pdf_sound. Qed.
+Print Assumptions C13_hist_pdf_sound.
+
+Theorem C13_hist_pdf_defined :
+  forall calls dens w tol o d,
+    ok (CHist calls) = true ->
+    In (GPdf dens (Some w) tol o) calls \/ In (GLogpdf dens (Some w) tol o) calls ->
+    wf_stat_w w = true -> In d dens -> exists l, o = Some l.
+Proof. exact hist_pdf_defined. Qed.
+Print Assumptions C13_hist_pdf_defined.
+
+(** for every history of well-formed calls (any length, order, mixture of dimensions, weights and
+    constraints) the model's call-by-call answers pass both decidable statements *)
+Theorem C13_hist_model_ok :
+  forall calls, Forall call_wf calls ->
+    ok (CHist (map model_call calls)) = true /\ agree (CHist (map model_call calls)) = true.
+Proof. exact hist_model_ok. Qed.
+Print Assumptions C13_hist_model_ok.
+
+(** the model's answer to a call is independent of the calls before and after it *)
+Theorem C13_hist_model_stateless :
+  forall pre c post,
+    map model_call (pre ++ c :: post) = map model_call pre ++ model_call c :: map model_call post.
+Proof. exact hist_model_stateless. Qed.
+Print Assumptions C13_hist_model_stateless.
+
+(** the accept loop has no give-up exit: a trial whose batch holds no valid row only advances the
+    trial counter, and whatever the loop returns has at least [size] rows (with
+    [C13_rvs_size_and_constraint]: exactly [size]) however many trials that takes *)
+Theorem C13_rvs_rejected_batch :
+  forall (X : Type) (valid : X -> bool) (draw : nat -> nat -> list X) fuel trial size acc,
+    (length acc < size)%nat ->
+    length (draw trial (size - length acc)%nat) = (size - length acc)%nat ->
+    filter valid (draw trial (size - length acc)%nat) = [] ->
+    rvs_loop X valid draw (S fuel) trial size acc = rvs_loop X valid draw fuel (S trial) size acc.
+Proof. exact rvs_rejected_batch. Qed.
+Print Assumptions C13_rvs_rejected_batch.
+
+Theorem C13_rvs_no_early_exit :
+  forall (X : Type) (valid : X -> bool) (draw : nat -> nat -> list X) fuel trial size acc out,
+    rvs_loop X valid draw fuel trial size acc = Some out -> (size <= length out)%nat.
+Proof. exact rvs_no_early_exit. Qed.
+Print Assumptions C13_rvs_no_early_exit.
+
 (** * non-vacuity: concrete states *)
 (** unsorted sample with a tie and a zero weight; alpha on a cumulative boundary (1/2), off it,
     0 and 1; the hypotheses of the quantile theorems hold for it *)
@@ -310,3 +380,23 @@ Example C13_example_rvs :
 Proof.
   vm_compute. reflexivity.
 Qed.
+
+(** a history: density under weights [1;3], the same points after the caller changed the
+    covariance (other component densities), a constrained sampler call in between, a log-density
+    call; the model's answers pass, and an answer computed from the FIRST call's densities at the
+    third call (a stale cross-call state) is rejected *)
+Example C13_example_history :
+  let c1 := GPdf [[1 # 2; 1 # 4]] (Some [1; 3]) 0 None in
+  let c2 := GRvs 2 (Some [(0, 1)]) [[[2]; [1 # 2]]; [[1 # 3]]] None in
+  let c3 := GPdf [[1 # 8; 1 # 16]] (Some [1; 3]) 0 None in
+  let c4 := GLogpdf [[1 # 8; 1 # 16]] None 0 None in
+  map model_call [c1; c2; c3; c4]
+  = [GPdf [[1 # 2; 1 # 4]] (Some [1; 3]) 0 (Some [5 # 16]);
+     GRvs 2 (Some [(0, 1)]) [[[2]; [1 # 2]]; [[1 # 3]]] (Some [[1 # 2]; [1 # 3]]);
+     GPdf [[1 # 8; 1 # 16]] (Some [1; 3]) 0 (Some [5 # 64]);
+     GLogpdf [[1 # 8; 1 # 16]] None 0 (Some [3 # 32])]
+  /\ ok (CHist (map model_call [c1; c2; c3; c4])) = true
+  /\ agree (CHist (map model_call [c1; c2; c3; c4])) = true
+  /\ ok (CHist [model_call c1; model_call c2; GPdf [[1 # 8; 1 # 16]] (Some [1; 3]) 0 (Some [5 # 16])]) = false
+  /\ ok (CHist [GRvs 2 (Some [(0, 1)]) [[[2]; [1 # 2]]] (Some [[1 # 2]])]) = false.
+Proof. vm_compute. repeat split; reflexivity. Qed.
